@@ -187,6 +187,7 @@ def r2_rejections(ctx, f, rep):
     # updates_buf is scratch: cleared before it is filled/taken
     from . import common as _cm
     _cm.scratch_cleared(ctx, f, rep, 'C17-R2')
+    _cm.payload_staged_whole(ctx, f, rep, 'C17-R2')
     # nothing before the accept_payload decision has an effect either (validation precedes the first state change)
     n = 0
     for p in ctx.paths(f, hd, 'none'):
